@@ -62,7 +62,7 @@ func (rr *RoundRobin) balance(partitions []int) int {
 
 	length := len(partitions)
 	counterNow := rr.counter
-	offset := int(counterNow / uint32(rr.ChunkSize))
+	offset := int(uint64(counterNow) / uint64(rr.ChunkSize))
 	rr.counter++
 	return partitions[offset%length]
 }
